@@ -69,6 +69,7 @@ class Spec:
         self.jobs = []        # dict
         self.includes = []
         self.defs = []        # raw C lines placed before the contracts
+        self.cxxflags = []
 
 
 def parse_spec(unit):
@@ -112,6 +113,11 @@ def parse_spec(unit):
                 sp.jobs.append(cur)
             elif w == "c":
                 sp.defs.append(rest)
+                kind = None
+            elif w == "cxxflags":
+                # extra flags for the lowering only (e.g. the std container models); the native replay
+                # build does not get them and so runs against the real library
+                sp.cxxflags += [("-I" + os.path.join(VERIF, x[2:])) if x.startswith("-Ispec/") else x for x in rest.split()]
                 kind = None
             else:
                 raise Undecided("%s:%d unknown block %s" % (path, ln, w))
@@ -188,11 +194,11 @@ def gen_headers(workdir):
     open(os.path.join(workdir, "fmt_prefix.h"), "w").write(so)
 
 
-def lower(unit, workdir):
+def lower(unit, workdir, extra_flags=()):
     src = os.path.join(VERIF, "units", unit + ".cpp")
     out_c = os.path.join(workdir, unit + ".c")
     out_map = os.path.join(workdir, unit + ".map.json")
-    cmd = [os.path.join(VERIF, "tools", "nop2c"), src, "--out=" + out_c, "--map=" + out_map, "--"] + CXXFLAGS + ["-I" + workdir, "-I" + CLANG_RES, "-Wno-everything"]
+    cmd = [os.path.join(VERIF, "tools", "nop2c"), src, "--out=" + out_c, "--map=" + out_map, "--"] + list(extra_flags) + CXXFLAGS + ["-I" + workdir, "-I" + CLANG_RES, "-Wno-everything"]
     rc, so, se, dt = run(cmd, timeout=300, mem=False)
     if rc != 0:
         raise Undecided("lowering of unit %s failed (nop2c exit %d) — extraction break, not a violation:\n%s" % (unit, rc, (se or so)[-3000:]))
@@ -606,7 +612,7 @@ def check(prop, tier, only_jobs=None, keep=False):
         jobs += mine
     # lower the needed units in parallel
     with concurrent.futures.ThreadPoolExecutor(NCPU) as ex:
-        futs = {ex.submit(lower, unit, workdir): unit for unit in specs}
+        futs = {ex.submit(lower, unit, workdir, specs[unit].cxxflags): unit for unit in specs}
         for f in concurrent.futures.as_completed(futs):
             try:
                 units[futs[f]] = f.result()
